@@ -39,7 +39,12 @@ from vf.pool import pmap
 LEVEL = "exploration"
 P = "C08/max_flow/"
 TIMEOUT_S = 5.0
-LADDER_TIMEOUT_S = 120.0  # networks with more than 40 nodes
+
+
+def ladder_timeout(n):
+    """CPU budget for networks with more than 40 nodes: >= 40x the slowest call on the unchanged tree (hub networks are
+    quadratic: 2100 nodes 1.9 s, 1040 nodes 0.3 s, 520 nodes 0.07 s)."""
+    return max(2.0, (n / 100.0) ** 2 / 5)
 
 
 class _Timeout(Exception):
@@ -155,7 +160,8 @@ def eval_case(case):
     g, lab = build_graph(case)
     back = {l: i for i, l in enumerate(lab)}
     big = case["n"] > 40
-    out, info, _ = judge_call(g, lab, back, case["n"], case["s"], case["t"], timeout=LADDER_TIMEOUT_S if big else TIMEOUT_S)
+    out, info, _ = judge_call(g, lab, back, case["n"], case["s"], case["t"],
+                              timeout=ladder_timeout(case["n"]) if big else TIMEOUT_S)
     return out, info
 
 
@@ -199,6 +205,7 @@ def eval_history(case, want_last=False):
         info["value"] = max(info["value"], i["value"])
         info["used_reverse"] |= i["used_reverse"]
         info["reopened"] += i["reopened"]
+        info["augmentations"] = max(info["augmentations"], i["augmentations"])
         if i.get("timeout"):
             info["timeout"] = True
         why = "first call" if k == 0 else ("same call again" if not step["edits"] and (step["s"], step["t"]) ==
@@ -251,9 +258,13 @@ def run_cases(cases, lasts=None):
     """Worker body: list of cases -> (n_eval, nontrivial keys, violations, [n_reverse, n_reopened, n_calls], timeouts).
     lasts: list that receives (case, last-call record) of history cases for the fresh-process comparison."""
     keys, viol, touts = [], [], []
-    nrev = nreo = ncalls = 0
+    nrev = nreo = ncalls = maxaug = 0
     per_ob = {}
+    tripped = False  # a big call timed out in this job: the remaining big cases of the job are not run (recorded as undecided)
     for case in cases:
+        if tripped and case["n"] > 40:
+            touts.append({"n": case["n"], "gen": case.get("gen"), "skipped": "after a time-out in the same worker job"})
+            continue
         if lasts is not None and case.get("kind") == "history":
             out, info, last = eval_history(case, want_last=True)
             if last["result"] is not None:
@@ -262,6 +273,7 @@ def run_cases(cases, lasts=None):
             out, info = eval_case(case)
         if info.get("timeout"):
             touts.append(case if case["n"] <= 40 else {"n": case["n"], "gen": case.get("gen")})
+            tripped = tripped or case["n"] > 40
         if info["value"] >= 1:
             keys.append(case_key(case))
         if info["used_reverse"]:
@@ -269,6 +281,7 @@ def run_cases(cases, lasts=None):
         if info["reopened"]:
             nreo += 1
         ncalls += info.get("calls", 1)
+        maxaug = max(maxaug, info.get("augmentations", 0))
         seen_here = set()
         for ob, detail in out:
             if ob in seen_here:
@@ -277,7 +290,7 @@ def run_cases(cases, lasts=None):
             per_ob[ob] = per_ob.get(ob, 0) + 1
             if per_ob[ob] <= 3:
                 viol.append((ob, case, detail))
-    return len(cases), keys, viol, [nrev, nreo, ncalls], touts, per_ob
+    return len(cases), keys, viol, [nrev, nreo, ncalls, maxaug], touts, per_ob
 
 
 # --------------------------------------------------------------------------------------------------- scopes
@@ -684,7 +697,8 @@ def w_list(cases):
 # ------------------------------------------------------------------------------------------------------ run
 def _merge(ctx, results, tally):
     for r in results:
-        n_eval, keys, viol, (nrev, nreo, ncalls), touts, per_ob = r[:6]
+        n_eval, keys, viol, (nrev, nreo, ncalls, maxaug), touts, per_ob = r[:6]
+        tally["maxaug"] = max(tally["maxaug"], maxaug)
         tally["lasts"] += r[6] if len(r) > 6 else []
         tally["eval"] += n_eval
         tally["rev"] += nrev
@@ -696,7 +710,8 @@ def _merge(ctx, results, tally):
         for ob, case, detail in viol:
             tally["viol"].append((ob, case, detail))
         for c in touts:
-            ctx.undecided.append({"obligation": P + "call-returns", "why": f"no result within {TIMEOUT_S} CPU-seconds on {c}"})
+            ctx.undecided.append({"obligation": P + "call-returns", "why": f"no result within the CPU budget ({TIMEOUT_S} s; more than 40 "
+                                  f"nodes: max(2, (n/100)^2/5) s) on {c}"})
 
 
 def _size(case):
@@ -713,11 +728,12 @@ def run(ctx: Ctx):
     lasts_all = []
 
     def scope_run(name, results, **desc):
-        tally = {"eval": 0, "rev": 0, "reo": 0, "calls": 0, "fails": {}, "viol": [], "lasts": []}
+        tally = {"eval": 0, "rev": 0, "reo": 0, "calls": 0, "maxaug": 0, "fails": {}, "viol": [], "lasts": []}
         _merge(ctx, results, tally)
         ctx.scope(name, evaluations=tally["eval"], max_flow_calls=tally["calls"],
                   needed_reverse_arc_in_reference_run=tally["rev"],
                   saturated_then_cancelled_then_reused_arc_in_reference_run=tally["reo"],
+                  most_augmenting_paths_in_a_reference_run=tally["maxaug"],
                   failing_by_obligation=tally["fails"], **desc)
         notes[name] = {"evaluations": tally["eval"], "failing_by_obligation": tally["fails"]}
         lasts_all.extend(tally["lasts"])
@@ -844,7 +860,8 @@ def run(ctx: Ctx):
     ctx.assumptions += [
         "history mode: the caller edits the dict and its lists in place between calls (tuples replaced, appended, deleted, "
         "rotated; keys re-inserted); each call is an input inside the quantifier and is judged on its own",
-        f"size ladder: a call that needs more than {LADDER_TIMEOUT_S:.0f} CPU-seconds is recorded as undecided, not judged",
+        "size ladder: a call that needs more than max(2, (n/100)^2/5) CPU-seconds (>= 40x the slowest call on the unchanged tree) is "
+        "recorded as undecided, not judged; the remaining ladder cases of that worker job are then skipped and recorded likewise",
     ]
     ctx.trusted += ["oracles/flow_exact.py: edmonds_karp (self-certifying: asserts its own saturated cut), "
                     "min_cut_brute (n <= 8 cross-check), st_flow_defects (residual reachability on the returned flow)"]
